@@ -1,30 +1,29 @@
 #!/bin/sh
-# Build the verification framework from files on disk only (offline): extractors, Gen files,
-# harness binaries, the Lean library (all theorems) and one driver executable per stream.
+# Build the verification framework from files on disk only (offline): the extractors, Gen files,
+# harness binaries, theorem modules and driver executables that the registered checks use.
 set -e
 cd "$(dirname "$0")"
 export GOFLAGS=-mod=mod GOPROXY=off GOSUMDB=off GOTOOLCHAIN=local CGO_ENABLED=0
 REPO=${VERIF_REPO:-/repo}
 mkdir -p bin work evidence replay lean/VaxisModel/Gen
 python3 tools/mkroots.py
-for d in extract/cmd/*/; do
-  x=$(basename "$d")
+lists=$(python3 -c "
+import sys; sys.path.insert(0, 'checks')
+from propcfg import PROPS
+ex, dr, mo = set(), set(), set()
+for c in PROPS.values():
+    ex |= set(c.get('extractors', [])); dr |= set(c['drivers']); mo |= set(c['modules'])
+print(' '.join(sorted(ex))); print(' '.join(sorted(dr))); print(' '.join(sorted(mo) + ['vxdrv_' + d for d in sorted(dr)]))")
+extractors=$(echo "$lists" | sed -n 1p)
+drivers=$(echo "$lists" | sed -n 2p)
+targets=$(echo "$lists" | sed -n 3p)
+for x in $extractors; do
   (cd extract && go build -o ../bin/extract-"$x" ./cmd/"$x")
   ./bin/extract-"$x" "$REPO" lean/VaxisModel/Gen
 done
 cp "$REPO/go.sum" harness/go.sum
-for d in harness/cmd/*/; do
-  x=$(basename "$d")
+for x in $drivers; do
   (cd harness && go build -tags verif -o ../bin/vxh-"$x" ./cmd/"$x")
 done
-# Lean: every theorem module and driver executable that a registered check uses (a stray helper file
-# that no check imports cannot break the set-up)
-targets=$(python3 -c "
-import sys; sys.path.insert(0, 'checks')
-from propcfg import PROPS
-t = []
-for c in PROPS.values():
-    t += c['modules'] + ['vxdrv_' + d for d in c['drivers']]
-print(' '.join(sorted(set(t))))")
 (cd lean && lake build $targets)
 echo setup-ok
